@@ -1037,6 +1037,9 @@ impl Gen {
                     if self.p.has("uncheckpointed_create_with_open_txn") && (in_sess.is_some() || !self.sess.is_empty()) {
                         continue;
                     }
+                    if self.p.has("create_table_inside_session") && in_sess.is_some() {
+                        continue; // L1: a rolled-back CREATE TABLE leaks its root page
+                    }
                     let s = self.table_def();
                     match in_sess {
                         Some(k) => self.emit(Event::Exec(k, s)),
